@@ -31,6 +31,14 @@ func catFuncs() vuego.FuncMap {
 	return vuego.FuncMap{
 		"shout": func(s string) string { return strings.ToUpper(s) + "!" },
 		"add":   func(a, b int) int { return a + b },
+		// a function that takes the render's context: it must see the variables of the render it is called in
+		"ctxget": func(ctx *vuego.VueContext, key string) any {
+			if ctx == nil {
+				return "no-context"
+			}
+			v, _ := ctx.Stack().Resolve(key)
+			return v
+		},
 		"failif": func(s string) (string, error) {
 			if s == "boom" {
 				return "", errors.New("failif: boom")
@@ -128,6 +136,7 @@ func Catalogue() []Prog {
 	add("v-pre", S, `<div v-pre>{{ title }} <b v-if="x">k</b></div>`, nil, nil, false)
 	add("v-once-loop", S, `<div v-for="lk_it in items"><style v-once>.a{}</style><script v-once>1</script><p>{{ lk_it.name }}</p></div>`, nil, nil, false)
 	add("filters", S, `<p>{{ title | upper }} {{ user.name | lower | title }} {{ items | len }} {{ missing | default("dflt") }} {{ title | shout }} {{ n | add(2) }}</p>`, nil, nil, false)
+	add("ctxfunc-in-expressions", S, `<p v-if="ctxget('title') != ''" :data-n="ctxget('n') + 1" :title="upper(ctxget('title'))">{{ ctxget('title') | upper }} {{ ctxget('title') }} {{ ctxget('n') > 3 ? "big" : "small" }}</p><i v-show="ctxget('show')">s</i>`, nil, nil, false)
 	add("exprs", S, `<p>{{ n > 3 ? "big" : "small" }} {{ n + 1 }} {{ show && !hide }} {{ user.name == "Ann" }}</p>`, nil, nil, false)
 	add("json-script", S, `<script>var d = {{ user | json }};</script><pre>{{ user | json }}</pre>`, nil, nil, false)
 	add("template-vars", S, `<template :lk_tmpl="n + 1"><p>{{ lk_tmpl }}</p></template><p>after</p>`, nil, nil, false)
@@ -282,6 +291,17 @@ var catEntryPoints = []string{"load-render", "renderfile", "vue-render", "vue-fr
 func (e *catEngine) run(p *Prog, ep string, data any) (string, error) {
 	var b bytes.Buffer
 	var err error
+	if p.Mode == "base-string" {
+		// straight on the shared base template, with the variables it was set up with
+		// ("a single base template may be used from any number of goroutines at once")
+		switch ep {
+		case "renderfile", "vue-fragment":
+			err = e.base.RenderByte(bg, &b, []byte(p.Str))
+		default:
+			err = e.base.RenderString(bg, &b, p.Str)
+		}
+		return b.String(), err
+	}
 	if p.NoData {
 		switch ep {
 		case "load-render":
